@@ -7,9 +7,11 @@ Driver for C18. One history per input line (written by harness/overlay/pkg/routi
   h <spray|binary> <L> <npeers> <event> <event> ...
 
   event = <ev>/<fails>/<sched>/<sends>/<rem>/<sent>/<store>
-    ev     S | R:<k|->:<prev|-> | U:<i> | D:<i> | T | X
+    ev     S | R:<k|->:<prev|-> | U:<i> | D:<i> | T | X | O
            (submit, receive with BinarySprayBlock k from previous node prev, peer i up / down, retry
-           tick, restart); peer 0 is the bundle's destination node
+           tick, restart, two retry ticks started at the same time — the second while the first sits
+           between reading and writing the metadata, if the lock lets it); peer 0 is the bundle's
+           destination node
     fails  '-' or dot-separated peers whose Send fails during the event
     sched  '-' or a word over {a,b}: forced order of the read / write-back steps of two failure reports
   observations of the REAL node after the event:
@@ -82,6 +84,7 @@ def parseEvent (tok : String) : Option EvLine :=
       | 'S', [_] => some base
       | 'T', [_] => some base
       | 'X', [_] => some base
+      | 'O', [_] => some base
       | 'R', [_, k, p] =>
         match parseOptNat k, parseOptNat p with
         | some k, some p => some { base with k := k, prev := p }
@@ -110,9 +113,10 @@ def mkSched (word : String) (n : Nat) : List Nat :=
   forced ++ (List.range (n + 1)).flatMap (fun _ => seqSched 4 (n + 1))
 
 /-- Input class of a forwarding step (part of the specfail class). -/
-def stepClass (sends : List Send) : String :=
+def stepClass (kind : Char) (sends : List Send) : String :=
   let failed := sends.filter (fun x => !x.ok)
-  if failed.any (fun x => x.peer == 0) then "direct-delivery-failed"
+  if kind == 'O' then "overlapping-forward-runs"
+  else if failed.any (fun x => x.peer == 0) then "direct-delivery-failed"
   else if failed.length ≥ 2 then "concurrent-failures"
   else if failed.length == 1 then "single-failure"
   else "no-failure"
@@ -145,7 +149,7 @@ def specEvent (algo : Algo) (l : Nat) (st : SpecSt) (e : EvLine) : SpecSt × Opt
     | _ => st
   let sends := e.obs.sends
   let all := st.allSends ++ sends
-  let cls := stepClass sends
+  let cls := stepClass e.kind sends
   let fail? : Option String :=
     match st.held, e.obs.rem with
     | some h, some r =>
@@ -159,6 +163,13 @@ def specEvent (algo : Algo) (l : Nat) (st : SpecSt) (e : EvLine) : SpecSt × Opt
           some s!"spray-conservation-{cls} L={l} remaining={r} relayed={(relayed dest all).length}"
         else none
       | .binary =>
+        if e.kind == 'O' then
+          -- two forwarding steps at once: what was handed over successfully + what is kept = what was held
+          let given := ((relayed dest sends).map (fun x => x.block.getD 0)).sum
+          if r + given != h then
+            some s!"binary-not-conserved-{cls} before={h} after={r} sends={showSends sends}"
+          else none
+        else
         match sends.filter (fun x => x.peer != dest) with
         | [] =>
           if r != h then some s!"binary-count-changed-without-relay-{cls} before={h} after={r}" else none
@@ -181,17 +192,46 @@ def specEvent (algo : Algo) (l : Nat) (st : SpecSt) (e : EvLine) : SpecSt × Opt
 /-- The model's event for a harness event; the sender order puts the peers the node actually sent to
 first (the manager's order is a `sync.Map` range: any order is possible, the model is asked whether
 the observed choice is one of its outcomes). -/
-def mkEvent (n : Nat) (e : EvLine) : Option Event :=
+def mkEvent (n : Nat) (e : EvLine) : Option (List Event) :=
   let order := e.obs.sends.map (·.peer) ++ List.range n
   let env : Env := { order := order, fails := e.fails, sched := mkSched e.sched n }
   match e.kind with
-  | 'S' => some (.submit env)
-  | 'R' => some (.receive e.k e.prev env)
-  | 'U' => some (.peerUp e.peer env)
-  | 'D' => some (.peerDown e.peer)
-  | 'T' => some (.tick env)
-  | 'X' => some .restart
+  | 'S' => some [.submit env]
+  | 'R' => some [.receive e.k e.prev env]
+  | 'U' => some [.peerUp e.peer env]
+  | 'D' => some [.peerDown e.peer]
+  | 'T' => some [.tick env]
+  | 'O' => some [.tick env, .tick env]   -- the repaired code serialises the two runs
+  | 'X' => some [.restart]
   | _ => none
+
+/-- All ways to split a list into (chosen, rest). -/
+def splits {α} : List α → List (List α × List α)
+  | [] => [([], [])]
+  | x :: xs => (splits xs).flatMap fun (a, b) => [(x :: a, b), (a, x :: b)]
+
+/-- Two overlapping `forward` runs A and B under the repaired locking: each `SenderForBundle` and
+each `ReportFailure` is atomic, so the outcomes are the sequential executions of
+pick_A · (some of A's failure reports) · pick_B · (the other reports of A and those of B) —
+give-backs commute, only their position relative to B's pick matters. (A direct delivery does not
+consult the algorithm: A is over before B starts.) -/
+def overlapOutcomes (s : Node) (env : Env) : List Node :=
+  if !s.stored || s.conn.contains s.dest then [run {} s [.tick env, .tick env]]
+  else
+    let (chA, md1) := choose s env
+    let sendsA := mkSends s env chA
+    let repA := mkReports s.algo sendsA
+    (splits repA).map fun (early, late) =>
+      let sB : Node := { s with md := giveBackAll {} s.algo md1 early }
+      let (chB, md2) := choose sB env
+      let sendsB := mkSends sB env chB
+      let repB := mkReports s.algo sendsB
+      { s with md := giveBackAll {} s.algo md2 (late ++ repB), log := s.log ++ sendsA ++ sendsB }
+
+/-- All permutations (used for at most five observed peers). -/
+def perms {α} : List α → List (List α)
+  | [] => [[]]
+  | x :: xs => (perms xs).flatMap fun p => (List.range (p.length + 1)).map fun i => p.take i ++ x :: p.drop i
 
 def modelObs (before after : Node) : String :=
   let sends := sortSends (after.log.drop before.log.length)
@@ -226,9 +266,20 @@ def handle (line : String) : String :=
           | none =>
             match mkEvent n e with
             | none => (s, some s!"bad-event {e.ev}")
-            | some ev =>
-              let s' := step {} s ev
-              if !stepComplete {} s ev then (s', some s!"model-schedule-incomplete at={e.ev}")
+            | some mevs =>
+              if e.kind == 'O' then
+                -- which of the two runs got which sender first is not observable: try every order
+                let seen := (e.obs.sends.map (·.peer)).eraseDups
+                let orders := if seen.length ≤ 5 then perms seen else [seen]
+                let outs := orders.flatMap fun o =>
+                  overlapOutcomes s { order := o ++ List.range n, fails := e.fails }
+                let io := implObs e.obs
+                match outs.find? (fun s' => modelObs s s' == io) with
+                | some s' => (s', none)
+                | none => (s, some s!"at={e.ev} model-outcomes={(outs.map (modelObs s)).eraseDups} impl={io}")
+              else
+              let s' := run {} s mevs
+              if !runComplete {} s mevs then (s', some s!"model-schedule-incomplete at={e.ev}")
               else
                 let mo := modelObs s s'
                 let io := implObs e.obs
